@@ -233,7 +233,11 @@ def _job_api(job):
 
     for entry in job['entries']:
         cases = job['cases']
-        eidx = w.index['start'] if entry == '__module__' else w.index[entry]
+        if entry == '__module__':
+            starts = [n for n in w.index if n and n.lower() == 'start']
+            eidx = w.index[starts[0]] if starts else 0
+        else:
+            eidx = w.index[entry]
         req = rr.core_request(w, bodies, ign, eidx, cases, fuel)
         req = req[:-1] + ' (api))'
         reply = drv.ask(req)
